@@ -339,7 +339,7 @@ var fullCatalogue = []string{
 	"kid-other", "kid-remove", "kid-unknown", "iss-untrusted", "iss-missing", "aud-wrong", "aud-missing", "scope-missing",
 	"scope-char-prefix", "scope-child", "scope-sibling", "scope-dot-prefix", "scope-char-suffix", "scope-ancestor", "scope-one-missing",
 	"exp-far-past", "exp-just-past", "exp-inside-leeway", "exp-zero", "exp-negative", "exp-string", "exp-huge", "exp-missing",
-	"nbf-future", "nbf-inside-leeway", "iat-future", "resign-other-key", "two-parts", "four-parts", "payload-edit-unsigned",
+	"nbf-future", "nbf-inside-leeway", "iat-future", "nbf-beyond-int64", "nbf-2pow63", "exp-year-one", "resign-other-key", "two-parts", "four-parts", "payload-edit-unsigned",
 	"header-edit-unsigned", "sub-swap-unsigned",
 }
 
@@ -541,6 +541,12 @@ func genToken(t *rapid.T, set []keyEntry, eff assertions, now int64, catalogue [
 			tk.Claims["exp"] = 1e300
 		case "exp-missing":
 			delete(tk.Claims, "exp")
+		case "nbf-beyond-int64":
+			tk.Claims["nbf"] = 1e19 // a time far in the future which does not fit into 64 bit seconds
+		case "nbf-2pow63":
+			tk.Claims["nbf"] = json.Number("9223372036854775808")
+		case "exp-year-one":
+			tk.Claims["exp"] = -62135596800 // 0001-01-01T00:00:00Z: long ago
 		case "nbf-future":
 			tk.Claims["nbf"] = now + leeway + 30
 		case "nbf-inside-leeway":
